@@ -135,11 +135,68 @@ def units(tier):
                 if not th and len(MOD[sym]) > 1 and nd == 3 and lt > 1:
                     continue
                 U.append(('h_fuse_meta', f"{sym},nd={nd},axes={axes},trans={trans},lt={lt}", dict(sym=sym, nd=nd, lt=lt, axes=axes, trans=trans)))
+        if not dense_:
+            for masks in ((0b1110, 0b0111, 0b0111, 0b1101), (0b1111, 0b1111, 0b1111, 0b1111)) + (((0b0011, 0b0101, 0b0110, 0b0011),) if th else ()):
+                for program in ('contract', 'add', 'vdot', 'transpose-unfuse', 'nested'):
+                    U.append(('h_fusion_mode_values', f"{sym},masks={masks},{program}", dict(sym=sym, masks=masks, program=program)))
         for case in ('contracted-by-sector', 'contracted-uniform-2', 'contracted-uniform-1', 'two-contracted', 'open-by-sector', 'open-uniform+contracted'):
             U.append(('h_unroll_values', f"{sym},{case}", dict(sym=sym, case=case)))
         for (nd, axes, perm) in [(5, ((0, 1), (2, 3, 4)), (1, 0)), (5, ((0, 1), 2, (3, 4)), (2, 0, 1))]:
             U.append(('h_unfuse_lazy', f"{sym},nd={nd},axes={axes},perm={perm},lt=1,which=all", dict(sym=sym, nd=nd, lt=1, axes=axes, perm=perm, which='all')))
     return U
+
+
+def h_fusion_mode_values(V, sym, masks, program):
+    """
+    default_fusion = 'hard' / 'meta' (and force_fusion overriding an explicit mode) are performance knobs: the same program -- fuse with the
+    configuration's default mode, compute over the fused legs (operands whose constituents have DIFFERENT sector content), unfuse --
+    gives the same legs, charge and dense values in every setting, equal to the unfused NumPy computation.
+    Concrete structures, symbolic data.
+    """
+    import numpy as np
+    import yastn
+    from contracts.c01 import make_leg, symbolic_tensor, dense, arrays_equal, FULL
+    m0, m1, m2, m3 = masks
+    l0, l1, l0b, l1b = make_leg(sym, 1, m0), make_leg(sym, 1, m1), make_leg(sym, 1, m2), make_leg(sym, 1, m3)
+    e, g = make_leg(sym, -1, FULL), make_leg(sym, -1, 0b0111)
+    F0, F1 = make_leg(sym, 1, FULL), make_leg(sym, 1, FULL)
+    results = {}
+    settings = [('hard', None), ('meta', None), ('hard', 'meta'), ('meta', 'hard')]
+    for default, force in settings:
+        def cfg_of(t):
+            return t._replace(config=t.config._replace(default_fusion=default, force_fusion=force))
+        a = cfg_of(symbolic_tensor(V, 'a', sym, [l0, l1, e, g]))
+        a2 = cfg_of(symbolic_tensor(V, 'c', sym, [l0b, l1b, e, g]))
+        b = cfg_of(symbolic_tensor(V, 'b', sym, [l0b.conj(), l1b.conj(), e.conj()]))
+        Da, Da2 = dense(V, a, {0: F0, 1: F1, 2: e, 3: g}), dense(V, a2, {0: F0, 1: F1, 2: e, 3: g})
+        Db = dense(V, b, {0: F0.conj(), 1: F1.conj(), 2: e.conj()})
+        explicit = {} if force is None else {'mode': default}          # force_fusion must override an explicit mode as well
+        fa = V.call(a.fuse_legs, axes=((0, 1), 2, 3), **explicit)
+        fa2 = V.call(a2.fuse_legs, axes=((0, 1), 2, 3), **explicit)
+        fb = V.call(b.fuse_legs, axes=((0, 1), 2), **explicit)
+        if program == 'contract':
+            r = V.call(yastn.tensordot, fb, fa, axes=(0, 0))
+            got, want, lg = r, np.tensordot(Db, Da, axes=((0, 1), (0, 1))), {0: e.conj(), 1: e, 2: g}
+        elif program == 'add':
+            r = V.call(V.call(fa.__add__, fa2).unfuse_legs, axes=0)
+            got, want, lg = r, Da + Da2, {0: F0, 1: F1, 2: e, 3: g}
+        elif program == 'vdot':
+            v = V.call(yastn.vdot, fa, fa2)
+            V.check_equal(f'vdot-over-fused-legs[{default},force={force}]', [v], [(Da * Da2).sum()])
+            results[default, force] = None
+            continue
+        elif program == 'transpose-unfuse':
+            r = V.call(V.call(fa.transpose, axes=(2, 0, 1)).unfuse_legs, axes=1)
+            got, want, lg = r, Da.transpose(3, 0, 1, 2), {0: g, 1: F0, 2: F1, 3: e}
+        elif program == 'nested':
+            ff = V.call(fa.fuse_legs, axes=((0, 1), 2), **explicit)
+            r = V.call(V.call(ff.unfuse_legs, axes=0).unfuse_legs, axes=0)
+            got, want, lg = r, Da, {0: F0, 1: F1, 2: e, 3: g}
+        arrays_equal(V, f'{program}:dense-values-equal-the-unfused-computation[{default},force={force}]', dense(V, got, lg), want)
+        results[default, force] = (tuple(got.get_legs()), tuple(got.n), got.ndim)
+    ref = results[settings[0]]
+    if ref is not None:
+        V.check(f'{program}:legs-charge-and-rank-do-not-depend-on-the-fusion-mode', all(results[k] == ref for k in results))
 
 
 def h_unroll_values(V, sym, case):
